@@ -108,7 +108,7 @@ func init() {
 			{Name: "k0=set", Prog: []Op{C("SADD", k0, "a")}},
 		}
 		return &Spec{Prop: "C09", ShardNum: shardNum, Keys: []string{k0, k1}, Alphabet: ops, Seeds: seeds,
-			Depth: depthOf(tier, 3, 4), Budget: budget(tier, 150*time.Second, 25*time.Minute), TTLTolMs: 1000,
+			Depth: depthOf(tier, 3, 6), Budget: budget(tier, 150*time.Second, 25*time.Minute), TTLTolMs: 1000,
 			Rule: "BFS over programs of list commands (elements {a,b}, indexes/counts in -3..3 and beyond) from empty, seeded lists and wrong-typed keys; each transition executes the real executor and is compared with a Go-slice model (reply, LRANGE/LLEN/EXISTS/TYPE observers, list link invariants)"}
 	}
 
@@ -152,7 +152,7 @@ func init() {
 			{Name: "k0=list", Prog: []Op{C("RPUSH", k0, "a")}},
 		}
 		return &Spec{Prop: "C10", ShardNum: shardNum, Keys: []string{k0}, Alphabet: ops, Seeds: seeds,
-			Depth: depthOf(tier, 3, 4), Budget: budget(tier, 150*time.Second, 25*time.Minute), TTLTolMs: 1000,
+			Depth: depthOf(tier, 3, 6), Budget: budget(tier, 150*time.Second, 25*time.Minute), TTLTolMs: 1000,
 			Rule: "BFS over programs of hash commands (fields {f,g,''}, values incl. empty, numeric extremes, CRLF) from empty, seeded hashes and wrong-typed keys; compared with a map model (reply, HGETALL/HLEN/EXISTS/TYPE observers)"}
 	}
 
@@ -202,7 +202,7 @@ func init() {
 			{Name: "k0={a},k2={a,b}", Prog: []Op{C("SADD", k0, "a"), C("SADD", k2, "a", "b")}},
 		}
 		return &Spec{Prop: "C11", ShardNum: shardNum, Keys: keys, Alphabet: ops, Seeds: seeds,
-			Depth: depthOf(tier, 3, 4), Budget: budget(tier, 150*time.Second, 25*time.Minute), TTLTolMs: 1000,
+			Depth: depthOf(tier, 3, 8), Budget: budget(tier, 150*time.Second, 25*time.Minute), TTLTolMs: 1000,
 			Rule: "BFS over programs of set commands (members {a,b,''}; keys colliding and not; every combination of existing/missing/wrong-typed operands) compared with a map-of-sets model; SPOP's result is adopted after checking it was a current member"}
 	}
 
@@ -312,7 +312,7 @@ func init() {
 			{Name: "k0=string", Prog: []Op{C("SET", k0, "x")}},
 		}
 		return &Spec{Prop: "C18", ShardNum: shardNum, Keys: []string{k0}, Alphabet: ops, Seeds: seeds,
-			Depth: depthOf(tier, 3, 4), Budget: budget(tier, 150*time.Second, 25*time.Minute), TTLTolMs: 1000,
+			Depth: depthOf(tier, 3, 6), Budget: budget(tier, 150*time.Second, 25*time.Minute), TTLTolMs: 1000,
 			Rule: "BFS over programs of XADD (explicit/partial/auto ids, NOMKSTREAM, MAXLEN/MINID with = and ~) and XRANGE (all bound shapes) plus 1 ms / 1 s clock events; compared with an ordered-slice model; id order and id<->entry bijection checked in every state"}
 	}
 }
@@ -338,6 +338,9 @@ func init() {
 			add(C("SETEX", k0, t, "v"), C("SET", k0, "v", "EX", t), C("SET", k0, "v", "PX", t+"000"), C("SET", k0, "v", "EXAT", "@now+"+t))
 		}
 		add(C("SET", k0, "v", "PX", "1500"), C("SET", k0, "10", "EX", "1"))
+		// deadlines centuries away (a remaining time above 2^63 ns overflows a time.Duration): valid
+		// input, the key must simply stay
+		add(C("EXPIRE", k0, "10000000000"), C("SET", k0, "v", "EX", "10000000000"), C("SETEX", k0, "10000000000", "v"), C("SET", k0, "v", "PX", "10000000000000"))
 		// ways of keeping / replacing / removing it
 		add(C("SET", k0, "w"), C("SET", k0, "w", "KEEPTTL"), C("SET", k0, "w", "XX", "KEEPTTL"), C("PERSIST", k0), C("DEL", k0), C("RENAME", k0, k1), C("RENAME", k1, k0),
 			C("APPEND", k0, "x"), C("INCR", k0), C("MSET", k0, "m"), C("SETNX", k0, "n"),
@@ -372,7 +375,7 @@ func init() {
 		}
 		return &Spec{Prop: "C06", ShardNum: shardNum, Keys: []string{k0, k1}, Alphabet: ops, Seeds: seeds, ProbeOps: probes,
 			Lax: true, Variants: []string{"timers run when due", "timer goroutines withheld (lazy expiry only)"},
-			Depth: depthOf(tier, 3, 4), Budget: budget(tier, 150*time.Second, 25*time.Minute), TTLTolMs: 1000,
+			Depth: depthOf(tier, 3, 5), Budget: budget(tier, 150*time.Second, 25*time.Minute), TTLTolMs: 1000,
 			Rule: "BFS over programs of deadline-attaching / keeping / replacing / removing commands and clock events (0.5 s, 1 s) on every value type, in two scheduling variants; after the last level every reading and writing probe command is applied on a replayed copy; oracle = model with exact ms deadlines and a one-second ambiguity window around each deadline"}
 	}
 }
